@@ -32,7 +32,11 @@ func serve(c *Case, forceSync bool) *served {
 	q, _ := json.Marshal(map[string]string{"query": c.Query})
 	req := httptest.NewRequest("POST", "/graphql", bytes.NewReader(q))
 	req.Header.Set("Content-Type", "application/json")
-	req = req.WithContext(context.WithValue(req.Context(), worldKey, w))
+	// the request's context is what net/http cancels when the client goes away
+	rctx, cancelReq := context.WithCancel(context.WithValue(req.Context(), worldKey, w))
+	defer cancelReq()
+	w.cn.fn = cancelReq
+	req = req.WithContext(rctx)
 	rec := httptest.NewRecorder()
 	done := make(chan struct{})
 	go func() {
